@@ -44,6 +44,8 @@ def scenario(seed, c, size=20000):
     lingers = c["who"] == "none"
     idle = negotiated(c["idle_cli"], c["idle_srv"])
     faults = {}
+    if c["loss"] == "reorder":
+        faults = {"delay": 35, "drop": 10, "until_ms": 100000}
     if c["loss"] == "close_lost":
         # everything sent from the moment of the close on is lost: the peer has to find out by its idle timer
         faults = {"blackhole_after_ms": c["at"]}
@@ -67,7 +69,12 @@ def run(tier, rep):
     scs = []
     with open(beh) as f:
         for i, line in enumerate(f):
-            scs.append(scenario(vlib.seed() * 100000 + i, json.loads(line)))
+            c = json.loads(line)
+            for r in range(3 if c["loss"] == "reorder" else 1):      # the reordering is seeded: three networks per close point
+                sc = scenario(vlib.seed() * 100000 + i * 10 + r, c, size=3000 if c["loss"] == "reorder" else 20000)
+                if c["loss"] == "reorder":
+                    sc["bi"], sc["uni"] = 4, 3
+                scs.append(sc)
     if not quick:
         rnd = random.Random(vlib.seed())
         base_cases = [json.loads(l) for l in open(beh)]
